@@ -188,6 +188,10 @@ struct BlockTask {
     }
 };
 
+// realpbfq mode: the pieces the mock decompressor hands out
+bool g_q_mode = false;
+std::vector<std::string> g_q_chunks;
+
 // ---------------------------------------------------------------- mock decompressor (mock mode)
 class MockDecompressor : public oio::Decompressor {
     int m_fd;
@@ -200,6 +204,10 @@ public:
         rec(json{{"e", "RT.Read"}, {"j", j}});
         perturb();
         if (g_cfg.fk == "read" && g_cfg.fat == j) throw Injected{"read " + std::to_string(j)};
+        if (g_q_mode) {                                   // realpbfq: piece j is blob frame j of a real PBF file
+            if (j <= static_cast<int>(g_q_chunks.size())) return g_q_chunks[static_cast<std::size_t>(j - 1)];
+            return std::string{};
+        }
         if (j <= g_cfg.n) return "C" + std::to_string(j);
         return std::string{};
     }
@@ -606,7 +614,8 @@ void run_case_inner(const json& c) {
         g_watch_pbf = false;
         RunResult rr;
         RealAcc acc{c.value("R", 1), {}};
-        const bool real = (mode == "real" || mode == "realpbf");
+        const bool real = (mode == "real" || mode == "realpbf" || mode == "realpbfq");
+        g_q_mode = false;
         if (mode == "mock" || mode == "mockfd") {
             const std::string path = g_tmpdir + (mode == "mock" ? "/empty.opl.gz" : "/empty.osm.pbf");
             spit(path, "x");
@@ -644,6 +653,29 @@ void run_case_inner(const json& c) {
                 g_watch_pos = 0;
             }
             g_watch_pbf = (mode == "realpbf");
+            if (mode == "realpbfq") {
+                // PBF data through the input queue: one blob frame per piece from the mock decompressor (gzip slot)
+                auto frames = pbf_frames(data);
+                if (static_cast<int>(frames.size()) != g_cfg.n) {
+                    throw vh::Mismatch(-1, g_cfg.n, frames.size(), "harness: PBF file does not have one blob per model chunk (header + data blocks)");
+                }
+                g_q_chunks.clear();
+                for (const auto& f : frames) g_q_chunks.push_back(data.substr(static_cast<std::size_t>(f.start), static_cast<std::size_t>(f.end - f.start)));
+                if (g_cfg.fk == "parse" || g_cfg.fk == "work") {
+                    std::string& ch = g_q_chunks.at(static_cast<std::size_t>(g_cfg.fat - 1));
+                    const auto& f = frames.at(static_cast<std::size_t>(g_cfg.fat - 1));
+                    const bool len = c.value("corrupt", std::string{"data"}) == "len" && g_cfg.fk == "parse";
+                    if (len) {
+                        ch[0] = 0x00; ch[1] = 0x7f; ch[2] = 0x00; ch[3] = 0x01;       // BlobHeader length far above 64 KiB
+                    } else {
+                        const int64_t b0 = f.blob - f.start;
+                        for (int64_t p = b0 + 8; p < static_cast<int64_t>(ch.size()) - 2 && p < b0 + 40; ++p) ch[static_cast<std::size_t>(p)] ^= 0x5a;
+                    }
+                }
+                g_q_mode = true;
+                rpath = g_tmpdir + "/queue.osm.pbf.gz";
+                spit(rpath, "x");
+            }
             const auto fmt_enum = fmt.substr(0, 3) == "pbf" ? oio::file_format::pbf : (fmt.substr(0, 3) == "xml" ? oio::file_format::xml : oio::file_format::opl);
             oid::ParserFactory::instance().register_parser(fmt_enum, wrap(fmt_enum == oio::file_format::pbf ? g_real_pbf : (fmt_enum == oio::file_format::xml ? g_real_xml : g_real_opl)));
             osmium::osm_entity_bits::type mask = osmium::osm_entity_bits::nothing;
@@ -656,7 +688,7 @@ void run_case_inner(const json& c) {
             }
             const bool meta = c.value("meta", true);
             const bool single = c.value("single", false);
-            g_tracing = (mode == "realpbf");
+            g_tracing = (mode == "realpbf" || mode == "realpbfq");
             rr = run_script([&]() {
                 std::unique_ptr<oio::Reader> r{new oio::Reader{oio::File{rpath}, pool, mask, meta ? oio::read_meta::yes : oio::read_meta::no,
                                                                single ? oio::buffers_type::single : oio::buffers_type::any}};
